@@ -128,7 +128,19 @@ func doCompile(in []byte) (out string) {
 	// the same bytes again, twice, in this process and straight away (an editor resends text that did not change):
 	// same text, same tables
 	repeat := "same"
-	for k := 2; k <= 3 && repeat == "same"; k++ {
+	for k := 2; k <= 5 && repeat == "same"; k++ {
+		if k >= 3 {
+			// … and after OTHER documents went through this process: two the compiler rejects (with text still
+			// pending in the lexer: an unknown filter, a line two levels too deep, an unclosed interpolation) and one
+			// it accepts
+			for _, other := range []string{"@goht X() {\n\t:nosuchfilter\n\t\tx\n}\n", "package q\n\n@goht X() {\n\t%p\n\t\t\t\t%b too deep\n}\n", "@goht X(s string) {\n\t%p #{s\n}\n",
+				"package q\n\nimport \"io\" // Discard\n\nvar _ = io.Discard\n\n@goht X() {\n\t%p ok\n}\n"} {
+				if to, eo := compiler.ParseString(other); eo == nil && to != nil {
+					var bo bytes.Buffer
+					to.Compose(&bo)
+				}
+			}
+		}
 		tk, errk := compiler.ParseString(string(in))
 		if (errk == nil) != (err == nil) {
 			repeat = "diff:" + hex.EncodeToString([]byte(fmt.Sprintf("compilation #%d of the same bytes: error %v, the first gave %v", k, errk, err)))
